@@ -369,6 +369,46 @@ def rename_locals(src, fname):
     return ast.unparse(tree) if changed else None
 
 
+def rename_all_locals(src):
+    """Every local of every function / method of a module renamed to an
+    opaque name q0, q1, ... (parameters, nested function names, globals and
+    attribute names are kept)."""
+    tree = ast.parse(src)
+
+    def top_funcs(node):
+        for ch in ast.iter_child_nodes(node):
+            if isinstance(ch, (ast.FunctionDef, ast.AsyncFunctionDef)):
+                yield ch
+            elif isinstance(ch, (ast.ClassDef, ast.If, ast.Try, ast.With)):
+                yield from top_funcs(ch)
+    for fn in top_funcs(tree):
+        params = set()
+        for sub in ast.walk(fn):
+            if isinstance(sub, (ast.FunctionDef, ast.AsyncFunctionDef, ast.Lambda)):
+                a = sub.args
+                params |= {x.arg for x in a.posonlyargs + a.args + a.kwonlyargs}
+                if a.vararg:
+                    params.add(a.vararg.arg)
+                if a.kwarg:
+                    params.add(a.kwarg.arg)
+        nested = {n.name for n in ast.walk(fn) if isinstance(n, (ast.FunctionDef, ast.AsyncFunctionDef, ast.ClassDef))
+                  and n is not fn}
+        glob = set()
+        for n in ast.walk(fn):
+            if isinstance(n, (ast.Global, ast.Nonlocal)):
+                glob |= set(n.names)
+        locs = []
+        for n in ast.walk(fn):
+            if isinstance(n, ast.Name) and isinstance(n.ctx, ast.Store) and n.id not in locs:
+                locs.append(n.id)
+        locs = [x for x in locs if x not in params and x not in nested and x not in glob and x != "_"]
+        m = {x: f"q{i}" for i, x in enumerate(locs)}
+        for n in ast.walk(fn):
+            if isinstance(n, ast.Name) and n.id in m:
+                n.id = m[n.id]
+    return ast.unparse(tree)
+
+
 def _copy_pkg(root):
     tmp = tempfile.mkdtemp(prefix="sa_selftest_")
     shutil.copytree(os.path.join(root, PKG), os.path.join(tmp, PKG),
@@ -401,6 +441,9 @@ def _run_variant(args):
                     applied += 1
             elif kind == "reformat":
                 open(path, "w").write(ast.unparse(ast.parse(src)))
+                applied += 1
+            elif kind == "rename-all":
+                open(path, "w").write(rename_all_locals(src))
                 applied += 1
             elif kind == "silent-patch":
                 import subprocess
@@ -458,6 +501,7 @@ def run_for(prop, mod, project):
             if f.endswith(".py"):
                 allpy.append((os.path.relpath(os.path.join(dp, f), root), None, None, 0))
     jobs.append((prop, root, "reformat", "reformat-package", allpy))
+    jobs.append((prop, root, "rename-all", "rename-every-local-opaquely", allpy))
     with ProcessPoolExecutor(max_workers=min(16, max(1, len(jobs)))) as ex:
         results = list(ex.map(_run_variant, jobs))
     expected = {s[0]: s[2] for s in MUST_FIRE}
